@@ -19,6 +19,11 @@
 //!                                    records (ids 0..) written to the SAME path with writer w2; the file must hold
 //!                                    exactly the second data set. fmt 0 jsonl / 1 csv / 2 parquet; ext "" or a codec;
 //!                                    writers: 0 write_*_vec, 1 PCollection::write_*, 2 write_*_par, 3 PCollection::write_*_par
+//!   big [fmt, n, rg, per, t, p]     n tiny records (an id only); fmt 0 jsonl / 1 csv / 2 parquet (rg as in ps); only
+//!                                    summaries (count, first, last, sum, consecutive) of whole / seq / par come back
+//!   gen [fmt, h, n, rg, per, order, t, p, ps1, ps2]  ONE streaming source handle, collected (order 0: par then seq,
+//!                                    1: seq then par), the file rewritten in place with the same shape but other
+//!                                    records (ids 1000..), collected again
 //!   jb  [hi, lo]                     the finite f64 with bit pattern hi * 2^32 + lo through JSONL, CSV, Parquet
 use ibv::{Emitter, SplitMix64, Tier, drive, ok};
 use ironbeam::io::csv::build_csv_shards;
@@ -166,20 +171,6 @@ fn checksum(b: &[u8]) -> u64 {
     b.iter().fold(0xcbf2_9ce4_8422_2325u64, |h, x| (h ^ u64::from(*x)).wrapping_mul(0x100_0000_01b3)) >> 3
 }
 
-fn write_parquet_rg(path: &Path, data: &Vec<Rec>, rg: usize) -> anyhow::Result<()> {
-    use arrow::datatypes::FieldRef;
-    use parquet::arrow::arrow_writer::ArrowWriter;
-    use parquet::file::properties::WriterProperties;
-    use serde_arrow::schema::{SchemaLike, TracingOptions};
-    let fields: Vec<FieldRef> = Vec::<FieldRef>::from_type::<Rec>(TracingOptions::default())?;
-    let batch = serde_arrow::to_record_batch(&fields, data)?;
-    let props = WriterProperties::builder().set_max_row_group_size(rg).build();
-    let mut w = ArrowWriter::try_new(std::fs::File::create(path)?, batch.schema(), Some(props))?;
-    w.write(&batch)?;
-    w.close()?;
-    Ok(())
-}
-
 /// Shape of a well-formed input per kind: u = unsigned int, i = signed int, o = unsigned int or
 /// null, b = bool, s = string, a = array. Anything else (e.g. a candidate of check.py's shrinker)
 /// is answered with ["invalid"] instead of a harness panic.
@@ -197,6 +188,8 @@ fn valid(kind: &str, input: &Value) -> bool {
         "jz" => "uusouuuu",
         "cz" => "uusbouuuu",
         "ow" => "usbuuuuuo",
+        "big" => "uuuuuu",
+        "gen" => "ubuuuuuuuu",
         _ => return false,
     };
     let Some(arr) = input.as_array() else { return false };
@@ -259,10 +252,38 @@ fn valid(kind: &str, input: &Value) -> bool {
                 && arr[5].as_u64().unwrap() <= 10_000
                 && arr[6].as_u64().unwrap() <= 10_000
         }
+        "big" => arr[0].as_u64().unwrap() <= 2 && arr[1].as_u64().unwrap() <= 400_000,
+        "gen" => arr[0].as_u64().unwrap() <= 2 && arr[2].as_u64().unwrap() <= 10_000 && arr[5].as_u64().unwrap() <= 1,
         "jf" => arr[0].as_i64().unwrap().abs() < (1 << 53),
         "jb" => arr.iter().all(|v| v.as_u64().unwrap() < (1 << 32)),
         _ => arr[0].as_u64().unwrap() <= 100_000,
     }
+}
+
+#[derive(Serialize, Deserialize, Clone, Debug)]
+struct Tiny {
+    id: u64,
+}
+
+/// [count, first, last, sum, consecutive] of a big read (first/last = -1 when empty)
+fn summary(v: Vec<Tiny>) -> Value {
+    let cons = v.windows(2).all(|w| w[1].id == w[0].id + 1);
+    let sum: u64 = v.iter().map(|r| r.id).sum();
+    json!([v.len(), v.first().map_or(-1, |r| r.id as i64), v.last().map_or(-1, |r| r.id as i64), sum, cons])
+}
+
+fn write_parquet_any<T: Serialize + for<'a> Deserialize<'a>>(path: &Path, data: &Vec<T>, rg: usize) -> anyhow::Result<()> {
+    use arrow::datatypes::FieldRef;
+    use parquet::arrow::arrow_writer::ArrowWriter;
+    use parquet::file::properties::WriterProperties;
+    use serde_arrow::schema::{SchemaLike, TracingOptions};
+    let fields: Vec<FieldRef> = Vec::<FieldRef>::from_type::<T>(TracingOptions::default())?;
+    let batch = serde_arrow::to_record_batch(&fields, data)?;
+    let props = WriterProperties::builder().set_max_row_group_size(rg).build();
+    let mut w = ArrowWriter::try_new(std::fs::File::create(path)?, batch.schema(), Some(props))?;
+    w.write(&batch)?;
+    w.close()?;
+    Ok(())
 }
 
 fn run(kind: &str, input: &Value) -> Value {
@@ -385,7 +406,7 @@ fn run(kind: &str, input: &Value) -> Value {
             if rg == 0 {
                 write_parquet_vec(&path, &data).unwrap();
             } else {
-                write_parquet_rg(&path, &data, rg).unwrap();
+                write_parquet_any(&path, &data, rg).unwrap();
             }
             let mut pay = true;
             let sh = build_parquet_shards(&path, per).unwrap();
@@ -586,6 +607,121 @@ fn run(kind: &str, input: &Value) -> Value {
                 ],
             };
             ok(json!([c1, c2, outs, pay.get(), leftover]))
+        }
+        "big" => {
+            let (fmt, n, rg) = (us(&input[0]), input[1].as_u64().unwrap(), us(&input[2]));
+            let (per, t, p) = (us(&input[3]), us(&input[4]), us(&input[5]));
+            let data: Vec<Tiny> = (0..n).map(|id| Tiny { id }).collect();
+            let pl = Pipeline::default();
+            match fmt {
+                0 => {
+                    let path = sc.p("big.jsonl");
+                    ironbeam::helpers::jsonl::write_jsonl_vec(&path, &data).unwrap();
+                    let sh = build_jsonl_shards(&path, per).unwrap();
+                    ok(json!([
+                        sh.total_lines,
+                        ranges_json(&sh.ranges),
+                        path_outcome(|| read_jsonl_vec::<Tiny>(&path), summary),
+                        path_outcome(|| read_jsonl_streaming::<Tiny>(&pl, &path, per)?.collect_seq(), summary),
+                        path_outcome(|| read_jsonl_streaming::<Tiny>(&pl, &path, per)?.collect_par(Some(t), Some(p)), summary)
+                    ]))
+                }
+                1 => {
+                    let path = sc.p("big.csv");
+                    write_csv_vec(&path, true, &data).unwrap();
+                    let sh = build_csv_shards(&path, true, per).unwrap();
+                    ok(json!([
+                        sh.total_rows,
+                        ranges_json(&sh.ranges),
+                        path_outcome(|| read_csv_vec::<Tiny>(&path, true), summary),
+                        path_outcome(|| read_csv_streaming::<Tiny>(&pl, &path, true, per)?.collect_seq(), summary),
+                        path_outcome(|| read_csv_streaming::<Tiny>(&pl, &path, true, per)?.collect_par(Some(t), Some(p)), summary)
+                    ]))
+                }
+                _ => {
+                    let path = sc.p("big.parquet");
+                    if rg == 0 {
+                        write_parquet_vec(&path, &data).unwrap();
+                    } else {
+                        write_parquet_any(&path, &data, rg).unwrap();
+                    }
+                    let sh = build_parquet_shards(&path, per).unwrap();
+                    let gr: Vec<(u64, u64)> = sh.group_ranges.iter().map(|(a, b)| (*a as u64, *b as u64)).collect();
+                    ok(json!([
+                        sh.total_rows,
+                        ranges_json(&gr),
+                        path_outcome(|| read_parquet_vec::<Tiny>(&path), summary),
+                        path_outcome(|| read_parquet_streaming::<Tiny>(&pl, &path, per)?.collect_seq(), summary),
+                        path_outcome(|| read_parquet_streaming::<Tiny>(&pl, &path, per)?.collect_par(Some(t), Some(p)), summary)
+                    ]))
+                }
+            }
+        }
+        "gen" => {
+            let (fmt, h, n, rg) = (us(&input[0]), input[1].as_bool().unwrap(), input[2].as_u64().unwrap(), us(&input[3]));
+            let (per, order, t, p) = (us(&input[4]), us(&input[5]), us(&input[6]), us(&input[7]));
+            let seeds = [input[8].as_u64().unwrap(), input[9].as_u64().unwrap()];
+            let path = sc.p(["g.jsonl", "g.csv", "g.parquet"][fmt]);
+            let write = |g: usize| {
+                let data = recs(seeds[g], 1000 * g as u64, n);
+                match fmt {
+                    0 => {
+                        ironbeam::helpers::jsonl::write_jsonl_vec(&path, &data).unwrap();
+                    }
+                    1 => {
+                        write_csv_vec(&path, h, &data).unwrap();
+                    }
+                    _ => {
+                        if rg == 0 {
+                            write_parquet_vec(&path, &data).unwrap();
+                        } else {
+                            write_parquet_any(&path, &data, rg).unwrap();
+                        }
+                    }
+                }
+            };
+            write(0);
+            let pl = Pipeline::default();
+            // the source is built ONCE
+            let src = match fmt {
+                0 => read_jsonl_streaming::<Rec>(&pl, &path, per).unwrap(),
+                1 => read_csv_streaming::<Rec>(&pl, &path, h, per).unwrap(),
+                _ => read_parquet_streaming::<Rec>(&pl, &path, per).unwrap(),
+            };
+            let mut gens = Vec::new();
+            for g in 0..2 {
+                if g == 1 {
+                    write(1);
+                }
+                let pay = std::cell::Cell::new(true);
+                let show = |v: Vec<Rec>| {
+                    let mut ok = true;
+                    let ids = ids_of(&v, seeds[g], &mut ok);
+                    if !ok {
+                        pay.set(false);
+                    }
+                    ids
+                };
+                let whole = path_outcome(
+                    || match fmt {
+                        0 => read_jsonl_vec::<Rec>(&path),
+                        1 => read_csv_vec::<Rec>(&path, h),
+                        _ => read_parquet_vec::<Rec>(&path),
+                    },
+                    &show,
+                );
+                let par = |s: &ironbeam::PCollection<Rec>| path_outcome(|| s.clone().collect_par(Some(t), Some(p)), &show);
+                let seq = |s: &ironbeam::PCollection<Rec>| path_outcome(|| s.clone().collect_seq(), &show);
+                let (o_par, o_seq) = if order == 0 {
+                    let a = par(&src);
+                    (a, seq(&src))
+                } else {
+                    let b = seq(&src);
+                    (par(&src), b)
+                };
+                gens.push(json!([whole, o_par, o_seq, pay.get()]));
+            }
+            ok(Value::Array(gens))
         }
         _ => json!(["bad-kind"]),
     }
@@ -867,6 +1003,10 @@ fn generate(seed: u64, tier: Tier, em: &mut Emitter) {
         }
         for sh in &shs {
             for ext in EXTS {
+                // quick tier: the four rarest spellings only in the thorough tier
+                if !thorough && ["Gz", "ZST", "XZ", "BZIP2"].contains(ext) {
+                    continue;
+                }
                 let small = sh.as_u64().is_some_and(|s| s <= 8);
                 let vias: Vec<u64> = if thorough { vec![0, 1] } else { vec![rng.below(2)] };
                 for via in vias {
@@ -898,6 +1038,10 @@ fn generate(seed: u64, tier: Tier, em: &mut Emitter) {
                 }
                 for n1 in [0u64, 1, 5] {
                     for n2 in [0u64, 1, 3, 7] {
+                        // quick tier: every codec for the zero-record branch, plain + gz otherwise
+                        if !thorough && n2 > 0 && !["", "gz"].contains(ext) {
+                            continue;
+                        }
                         let mut shs: Vec<Value> = if w2 < 2 {
                             vec![Value::Null]
                         } else if n2 == 0 || thorough {
@@ -918,6 +1062,48 @@ fn generate(seed: u64, tier: Tier, em: &mut Emitter) {
                                 em.case("ow", json!([fmt, ext, h, w1, w2, n1, n2, rng.below(1 << 20), sh]), nt, &["overwrite"]);
                             }
                         }
+                    }
+                }
+            }
+        }
+    }
+    // 9. shards with more than 65 536 rows / lines (summaries only)
+    let bigs: Vec<(u64, u64, u64, u64)> = if thorough {
+        let mut v = Vec::new();
+        for n in [65_536u64, 65_537, 70_001, 131_073] {
+            for rg in [0u64, 20_000, 65_537, 70_000] {
+                for per in [1u64, 2, 1000] {
+                    v.push((2, n, rg, per));
+                }
+            }
+            for per in [65_536u64, 65_537, 1000, 100_000] {
+                v.push((0, n, 0, per));
+                v.push((1, n, 0, per));
+            }
+        }
+        v
+    } else {
+        vec![(2, 65_537, 0, 1), (2, 70_001, 20_000, 1000), (2, 65_536, 0, 1), (2, 70_001, 20_000, 2), (0, 70_001, 0, 65_536), (0, 70_001, 0, 1000), (1, 70_001, 0, 65_536), (1, 70_001, 0, 10_000)]
+    };
+    for (fmt, n, rg, per) in bigs {
+        let (t, p) = tp(&mut rng, 3);
+        em.case("big", json!([fmt, n, rg, per, t, p]), true, &["big"]);
+    }
+
+    // 10. one source handle, two generations of the file (same shape, other records)
+    let gmax = if thorough { 12 } else { 6 };
+    for fmt in 0..3u64 {
+        for n in 0..=gmax {
+            for per in [0u64, 1, 2, 3, n, n + 1] {
+                for order in 0..2u64 {
+                    let rgs: Vec<u64> = if fmt == 2 { vec![0, 1, 2] } else { vec![0] };
+                    for rg in rgs {
+                        if !thorough && rng.chance(1, 2) {
+                            continue;
+                        }
+                        let (t, p) = tp(&mut rng, n);
+                        let h = rng.chance(1, 2);
+                        em.case("gen", json!([fmt, h, n, rg, per, order, t, p, rng.below(1 << 20), rng.below(1 << 20)]), n >= 1, &["two-generations"]);
                     }
                 }
             }
